@@ -180,6 +180,20 @@ def r4(ctx):
         b = bs[0]
         O = X.Origins(b, P)
         arms = R.match_tables(P, b, O)
+        hops = 0
+        while not [a for a in arms if a.path[0][1] in table or "/".join(v for _, v in a.path) in table] and hops < 3:
+            # thin wrapper: follow the delegation to a method of the same type
+            nxt = None
+            for cs in b.calls():
+                tb = P.resolve_callee(b.crate, cs)
+                if tb is not None and tb.impl_self_ty == b.impl_self_ty and tb.key != b.key:
+                    nxt = tb
+            if nxt is None:
+                break
+            b = nxt
+            O = X.Origins(b, P)
+            arms = R.match_tables(P, b, O)
+            hops += 1
         got = {}
         for a in arms:
             key = "/".join(v for _, v in a.path)
